@@ -1245,6 +1245,8 @@ def compare_alias(ctx, sess, wfs, resp):
         if sv is not None:
             arrs.append(np.asarray(sv)); ids.append(int(sid))
     ctx.count('alias:arrays', len(arrs))
+    if int(kv['arrays']) != len(arrs):
+        ctx.disagree('C03 object identity: number of distinct ndarray objects', {'session': sess, 'model': kv['arrays'], 'impl': len(arrs)})
     for a in range(len(arrs)):
         for b in range(a + 1, len(arrs)):
             same_model = ids[a] == ids[b]
